@@ -65,6 +65,10 @@ func runC16(t *testing.T, rc *core.RunCtx) {
 	}
 	logChecks := tp.Draw(2) == 0
 	exportImport := tp.Draw(3) == 0
+	earlyLookups := tp.Draw(2) == 0
+	// (never a divisor of the server's 1 s debounce: two timers due at the same
+	// fake instant run in an order the simulator does not decide)
+	cadence := []time.Duration{197 * time.Millisecond, 61 * time.Millisecond, 397 * time.Millisecond, 1109 * time.Millisecond}[tp.Draw(4)]
 	// an optional second client: a plain machine mutated between the first
 	// one's operations
 	var second []int
@@ -73,7 +77,7 @@ func runC16(t *testing.T, rc *core.RunCtx) {
 			second = append(second, tp.Draw(16))
 		}
 	}
-	rc.Desc = fmt.Sprintf("%s commands=%v logChecks=%v second=%v export=%v", p.String(), cmds, logChecks, second, exportImport)
+	rc.Desc = fmt.Sprintf("%s commands=%v logChecks=%v second=%v export=%v earlyLookups=%v cadence=%v", p.String(), cmds, logChecks, second, exportImport, earlyLookups, cadence)
 	rc.Shape = rc.Desc
 	dir, err := os.MkdirTemp("", "c16-")
 	if err != nil {
@@ -155,7 +159,22 @@ func runC16(t *testing.T, rc *core.RunCtx) {
 			time.Sleep(2 * time.Second)
 			for i, op := range p.tasks[0] {
 				w.exec("driver", op, false)
-				time.Sleep(200 * time.Millisecond)
+				// a lookup by id may come before the record does (log-reader links,
+				// jumps by id): it finds nothing yet and must find it later
+				if earlyLookups && len(ref) > 0 {
+					// (everything the operation set in motion at this instant has
+					// run before the clock moves)
+					time.Sleep(time.Millisecond)
+					id := ref[len(ref)-1].id
+					d.Mach.Eval("verif-early-lookup", func() {
+						if c := d.Clients[src.Id()]; c != nil {
+							if c.TxIndex(id) < 0 {
+								s.Probe("lookup-before-arrival")
+							}
+						}
+					}, nil)
+				}
+				time.Sleep(cadence)
 				if i < len(second) {
 					st := []string{"P", "Q", "R", "S"}[second[i]%4]
 					switch second[i] / 4 {
@@ -166,7 +185,7 @@ func runC16(t *testing.T, rc *core.RunCtx) {
 					case 3:
 						src2.Toggle1(st, nil)
 					}
-					time.Sleep(200 * time.Millisecond)
+					time.Sleep(cadence)
 				}
 			}
 			// the telemetry queue and the debugger's debounce settle
@@ -200,7 +219,7 @@ func runC16(t *testing.T, rc *core.RunCtx) {
 						return false
 					}
 					if tx.ID != r.id || tx.Accepted != r.accepted || tx.IsAuto != r.auto || tx.IsCheck != r.check {
-						s.Fail("C16/record-flags", "record %d: id/accepted/auto/check = %s/%v/%v/%v, the transition was %s/%v/%v/%v", i, tx.ID, tx.Accepted, tx.IsAuto, tx.IsCheck, r.id, r.accepted, r.auto, r.check)
+						s.Fail("C16/record-flags", "record %d: same id/accepted/auto/check = %v/%v/%v/%v, the transition was %v/%v/%v", i, tx.ID == r.id, tx.Accepted, tx.IsAuto, tx.IsCheck, r.accepted, r.auto, r.check)
 						return false
 					}
 					for si, name := range index {
@@ -275,8 +294,8 @@ func runC16(t *testing.T, rc *core.RunCtx) {
 				}
 				// --- lookups equal a linear scan
 				for i, tx := range c.MsgTxs {
-					if got := c.TxIndex(tx.ID); got != i && c.MsgTxs[got].ID != tx.ID {
-						s.Fail("C16/lookup-txindex", "TxIndex(%s) = %d, the record is at %d", tx.ID, got, i)
+					if got := c.TxIndex(tx.ID); got != i && (got < 0 || got >= len(c.MsgTxs) || c.MsgTxs[got].ID != tx.ID) {
+						s.Fail("C16/lookup-txindex", "TxIndex(id of record %d) = %d", i, got)
 						return false
 					}
 					want := -1
@@ -520,7 +539,7 @@ func runC16(t *testing.T, rc *core.RunCtx) {
 			render := func(c *debugger.Client) []string {
 				var out []string
 				for i, tx := range c.MsgTxs {
-					l := fmt.Sprintf("%s %v q%d %v %v auto=%v acc=%v chk=%v queued=%v", tx.ID, tx.Clocks, tx.QueueTick, tx.Type, tx.CalledStatesIdxs, tx.IsAuto, tx.Accepted, tx.IsCheck, tx.IsQueued)
+					l := fmt.Sprintf("%v q%d %v %v auto=%v acc=%v chk=%v queued=%v", tx.Clocks, tx.QueueTick, tx.Type, tx.CalledStatesIdxs, tx.IsAuto, tx.Accepted, tx.IsCheck, tx.IsQueued)
 					if i < len(c.MsgTxsParsed) {
 						ps := c.MsgTxsParsed[i]
 						l += fmt.Sprintf(" | sum=%d diff=%d +%v -%v", ps.TimeSum, ps.TimeDiff, ps.StatesAdded, ps.StatesRemoved)
@@ -543,6 +562,10 @@ func runC16(t *testing.T, rc *core.RunCtx) {
 					return
 				}
 				for i := range r1 {
+					if c1.MsgTxs[i].ID != c2.MsgTxs[i].ID {
+						s.Fail("C16/import-record", "client %s record %d was imported under another transition id", id, i)
+						return
+					}
 					if r1[i] != r2[i] {
 						s.Fail("C16/import-record", "client %s record %d: live %q, imported %q", id, i, r1[i], r2[i])
 						return
